@@ -295,13 +295,54 @@ pub fn seed_masks(plan: &Plan) -> Vec<(String, u64)> {
     v
 }
 
+/// thorough variant: every valid mask within two flips of the minimal or of the full message
+pub fn seed_masks_radius2(plan: &Plan) -> Vec<(String, u64)> {
+    let n = plan.opts.len();
+    let full = plan.full_mask();
+    let mut v: Vec<(String, u64)> = Vec::new();
+    let mut push = |m: u64, v: &mut Vec<(String, u64)>| {
+        let m = plan.normalize(m);
+        if !v.iter().any(|(_, x)| *x == m) {
+            v.push((format!("mask{}", plan.describe_mask(m)), m));
+        }
+    };
+    let closure = |bits: &[usize]| -> u64 {
+        let mut m = 0u64;
+        for b in bits {
+            let mut g = Some(*b);
+            while let Some(x) = g {
+                m |= 1 << x;
+                g = plan.opts[x].parent;
+            }
+        }
+        m
+    };
+    for (label, m) in seed_masks(plan) {
+        let _ = label;
+        push(m, &mut v);
+    }
+    for i in 0..n {
+        push(full & !(1u64 << i), &mut v);
+        for j in i + 1..n {
+            push(closure(&[i, j]), &mut v);
+            push(full & !(1u64 << i) & !(1u64 << j), &mut v);
+        }
+    }
+    v
+}
+
 /// (label, target, wire tree, message bytes) for every seed of every parameter-bearing command
 pub fn all_seeds() -> Vec<(String, Target, V, Vec<u8>)> {
+    all_seeds_with(false)
+}
+
+pub fn all_seeds_with(radius2: bool) -> Vec<(String, Target, V, Vec<u8>)> {
     let mut out = Vec::new();
     for b in PARAM_CMDS {
         let t = Target::Cmd(b);
         let plan = Plan::new(&t.schema(), Side::Request);
-        for (label, mask) in seed_masks(&plan) {
+        let masks = if radius2 { seed_masks_radius2(&plan) } else { seed_masks(&plan) };
+        for (label, mask) in masks {
             let wire = plan.build(mask, &[]);
             let bytes = t.bytes(&wire);
             out.push((format!("{}:{}", t.name(), label), t.clone(), wire, bytes));
